@@ -28,6 +28,11 @@
 (* Response of its own, an acquired one that is later overwritten in place,   *)
 (* released and acquired again by somebody else) - never reaches it.          *)
 (*                                                                         *)
+(* The same holds for ctx.Hijack / HijackSetNoResponse called after the     *)
+(* timeout: they land on the abandoned ctx, the serve loop reads its hijack  *)
+(* bookkeeping from the ctx it continues with, so the connection is not      *)
+(* hijacked and NextRequest (Start) stays enabled.                           *)
+(*                                                                         *)
 (* The handler goroutine mutates the Response of the ctx it was given at    *)
 (* any time, also after the timeout.  Contents are abstract values:         *)
 (*   <<"clean",0,0,0>>, <<"H", conn, idx, k>> (k-th mutation by the handler *)
